@@ -16,7 +16,8 @@ LEVEL_NOTE = "Trusted: probe on _ControlLoopRunner._process_tick (attached from 
 DESIGN_REF = "§5 C11"
 RULE = "case = generated program + schedule (+ resume point); distinct = tick-order signature hash; non-trivial = run had >= 8 ticks"
 REQUIRED_REACH = ["state_compare", "compare_with_in_progress", "compare_with_waiters", "compare_with_collected", "compare_with_retry_attempts", "resumed_case",
-                  "family_fan", "family_wait", "family_retry", "family_collect", "family_catch", "public_view_compare", "public_view_with_in_progress", "late_replay_compare"]
+                  "family_fan", "family_wait", "family_retry", "family_collect", "family_catch", "public_view_compare", "public_view_with_in_progress", "late_replay_compare",
+                  "mid_tick_compare", "mid_tick_compare_during_worker_shutdown"]
 ASSUMPTIONS = ["<= 150 ticks per run"]
 FAMILIES = [("fan", 2), ("wait", 2), ("retry", 2), ("collect", 1), ("catch", 1), ("outcomes", 1)]
 
@@ -84,6 +85,42 @@ def _hook(acc, case, box):
                           f"after tick #{len(ticks)} ({type(tick).__name__}) live vs rebuilt differ: {json.dumps(d[:2], default=str)[:600]}", case)
 
     return after_tick
+
+
+def _point_hook(acc, case, box):
+    """'At every point of a run': the same comparison at moments that are NOT tick boundaries -- whenever a step body starts, ends or
+    is cancelled (the latter happens while the control loop is still inside the processing of a terminal tick)."""
+    from vf import oracles
+    from workflows.runtime.control_loop import rebuild_state_from_ticks
+
+    def at_step_point(tr, step, how):
+        if box.get("violated") or box.get("pt_violated") or box.get("np", 0) > 300 or not tr.runners:
+            return
+        if _uses_elapsed(case["case"]["spec"]):
+            # the known re-stamping finding diverges at the reduction of a tick; the tick-boundary hook decides (and classifies) those
+            return
+        runner = tr.runners[-1]
+        if not hasattr(runner, "state"):
+            return
+        box["np"] = box.get("np", 0) + 1
+        try:
+            ticks = list(runner.adapter.replay())
+            rebuilt = rebuild_state_from_ticks(runner.adapter.init_state, ticks)
+        except Exception:  # noqa: BLE001  (the tick-boundary hook reports rebuild failures)
+            return
+        acc.hit("mid_tick_compare")
+        if how == "cancel":
+            acc.hit("mid_tick_compare_during_worker_shutdown")
+        d = oracles.diff_state(oracles.norm_state(runner.state), oracles.norm_state(rebuilt))
+        if d:
+            box["pt_violated"] = True
+            field = d[0][0] if d[0][0] == "is_running" else d[0][1]
+            acc.violation({"mech": "rebuilt_state_differs_from_live", "field": field, "at": "step_body_" + ("cancelled" if how == "cancel" else "boundary"),
+                           "elapsed_time_policy": _uses_elapsed(case["case"]["spec"]), "resumed": bool(case.get("phase") == "resumed")},
+                          f"while step {step} was at '{how}' (vt inside the processing of a tick), live state vs replay of the {len(ticks)} ticks recorded so far differ: "
+                          f"{json.dumps(d[:2], default=str)[:600]}", case)
+
+    return at_step_point
 
 
 def _ser_view(d):
@@ -166,7 +203,7 @@ def run_one(case, acc):
 
     box = {}
     wit = {"case": case}
-    tr = engine_run.run_case(case["spec"], extra={"after_tick": _hook(acc, wit, box)})
+    tr = engine_run.run_case(case["spec"], extra={"after_tick": _hook(acc, wit, box), "at_step_point": _point_hook(acc, wit, box)})
     _late_replay(acc, wit, box)
     acc.case()
     acc.hit("family_" + case["family"])
@@ -194,7 +231,7 @@ def run_resumed(case2, acc):
     wit = {"case": case2, "phase": "resumed"}
     snap = case2["snap"]
     tr2 = engine_run.run_case(case2["spec"], ctx_factory=lambda w: Context.from_dict(w, json.loads(json.dumps(snap))), start=False,
-                              extra={"after_tick": _hook(acc, wit, box)})
+                              extra={"after_tick": _hook(acc, wit, box), "at_step_point": _point_hook(acc, wit, box)})
     acc.case()
     acc.hit("resumed_case")
     if tr2.errors:
